@@ -26,6 +26,13 @@ namespace Grok
 
 abbrev Str := List Char
 
+open Lean in
+/-- `cs!"abc"` = `['a', 'b', 'c']` (a list literal, so that it reduces in the kernel). -/
+macro:max "cs!" s:str : term => do
+  let elems : Array (TSyntax `term) :=
+    (s.getString.toList.map fun c => (Syntax.mkCharLit c : TSyntax `term)).toArray
+  `(([$elems,*] : List Char))
+
 /-- compile-time errors of `parse_grok_rules` (`parse_grok_rules::Error`), by class. -/
 inductive Err where
   | circular (first : Str)   -- CircularDependencyInAliasDefinition(alias_stack.first())
@@ -61,11 +68,12 @@ end Out
 
 /-- Rust core primitives used by the grok code, as parameters. -/
 structure Prims where
-  /-- `str::parse::<f64>`: `ok none` = parse error, `ok (some bits)` = the value (may be NaN/±∞). -/
-  parseF64 : Str → Out (Option Nat)
-  /-- `str::to_lowercase`, `str::to_uppercase` -/
-  lower : Str → Out Str
-  upper : Str → Out Str
+  /-- `str::parse::<f64>`: `some none` = parse error, `some (some bits)` = the value (may be NaN/±∞);
+      the outer `none` = the instance declines (the model then answers `oom`). -/
+  parseF64 : Str → Option (Option Nat)
+  /-- `str::to_lowercase`, `str::to_uppercase` (`none` = the instance declines) -/
+  lower : Str → Option Str
+  upper : Str → Option Str
 
 /-! ## 1. Segmentation: `GROK_PATTERN_RE.find_iter(rule)`
 
@@ -151,20 +159,6 @@ inductive Tok where
   | ext (s : Str)
   deriving DecidableEq, Repr
 
-/-- `string_literal`: content (raw, escapes not yet resolved) and the rest after the closing quote. -/
-def scanStr : Str → Option (Str × Str)
-  | [] => none
-  | '"' :: cs => some ([], cs)
-  | '\\' :: c :: cs =>
-    match scanStr cs with
-    | some (b, r) => some ('\\' :: c :: b, r)
-    | none => none
-  | c :: cs =>
-    if c = '\\' then none
-    else match scanStr cs with
-      | some (b, r) => some (c :: b, r)
-      | none => none
-
 /-- `unescape_string_literal` (`\\n`, `\\r`, `\\t` — backslash backslash letter — first, then
     `\'`, `\"`, `\\`; any other escape is an error). -/
 def unesc : Str → Option Str
@@ -179,67 +173,116 @@ def unesc : Str → Option Str
 def natOfDigits (ds : Str) : Nat := ds.foldl (fun a d => a * 10 + (d.toNat - 48)) 0
 
 def identTok (s : Str) : Tok :=
-  if s = "true".toList then .tru
-  else if s = "false".toList then .fals
-  else if s = "null".toList then .null
+  if s = cs!"true" then .tru
+  else if s = cs!"false" then .fals
+  else if s = cs!"null" then .null
   else if s.any (fun c => c = '@' || c = '-') then .ext s
   else .ident s
 
 def i64Max : Int := 9223372036854775807
 def i64Min : Int := -9223372036854775808
 
-/-- the lexer; every lexer error is the class `syntax`. -/
-def lexF (P : Prims) : Nat → Str → Out (List Tok)
-  | 0, _ => .fuel
-  | _ + 1, [] => .ok []
-  | n + 1, c :: cs =>
-    let one (t : Tok) : Out (List Tok) := do let r ← lexF P n cs; pure (t :: r)
-    let numeric : Out (List Tok) :=
-      let isNum := fun ch => isDigit ch || isFloatSym ch
-      -- `c` itself is a digit or `.`
-      let num := c :: cs.takeWhile isNum
-      let rest' := cs.dropWhile isNum
-      if num.any isFloatSym || c = '.' then do
-        match ← P.parseF64 num with
-        | some bits =>
-          -- NotNan<f64>::from_str rejects NaN; the literal syntax cannot spell it
-          let r ← lexF P n rest'
-          pure (.float bits :: r)
-        | none => .err .syntax
-      else
-        let v : Int := natOfDigits num
-        if v ≤ i64Max then do let r ← lexF P n rest'; pure (.int v :: r) else .err .syntax
-    if c = '%' then
-      match cs with
-      | '{' :: cs' => do let r ← lexF P n cs'; pure (.lrule :: r)
-      | _ => one .invalid
-    else if c = '}' then one .rrule
-    else if c = '[' then one .lbr
-    else if c = ']' then one .rbr
-    else if c = '(' then one .lpar
-    else if c = ')' then one .rpar
-    else if c = '.' then
-      (match cs with
-       | d :: _ => if isDigit d then numeric else one .dot
-       | [] => one .dot)
-    else if c = ':' then one .colon
-    else if c = ',' then one .comma
-    else if c = '"' then
-      match scanStr cs with
-      | none => .err .syntax
-      | some (content, rest) =>
-        match unesc content with
-        | none => .err .syntax
-        | some s => do let r ← lexF P n rest; pure (.str s :: r)
-    else if c = '+' || c = '-' then one .sign
-    else if isIdentStart c then do
-      let r ← lexF P n (cs.dropWhile isIdentCont)
-      pure (identTok (c :: cs.takeWhile isIdentCont) :: r)
-    else if isDigit c then numeric
-    else if isWs c then lexF P n cs
-    else one .invalid
+/-- lexer states: the lexer of lexer.rs read as a character-by-character machine
+    (identifiers, numbers and strings accumulate their text, most recent character first). -/
+inductive LS where
+  | start
+  | pct                 -- after `%`
+  | dot                 -- after `.`
+  | ident (acc : Str)
+  | num (acc : Str)
+  | str (acc : Str)
+  | strEsc (acc : Str)  -- after a backslash inside a string
+  deriving DecidableEq, Repr
 
-def lex (P : Prims) (s : Str) : Out (List Tok) := lexF P (s.length + 1) s
+/-- `numeric_literal`: digits and `e E - + .`; a float if any of the latter occurs. -/
+def finishNum (P : Prims) (acc : Str) : Out Tok :=
+  let num := acc.reverse
+  if num.any isFloatSym then
+    match P.parseF64 num with
+    | some (some bits) => .ok (.float bits)
+    | some none => .err .syntax
+    | none => .oom
+  else
+    let v : Int := natOfDigits num
+    if v ≤ i64Max then .ok (.int v) else .err .syntax
+
+def startStep (c : Char) : List Tok × LS :=
+  if c = '%' then ([], .pct)
+  else if c = '}' then ([.rrule], .start)
+  else if c = '[' then ([.lbr], .start)
+  else if c = ']' then ([.rbr], .start)
+  else if c = '(' then ([.lpar], .start)
+  else if c = ')' then ([.rpar], .start)
+  else if c = '.' then ([], .dot)
+  else if c = ':' then ([.colon], .start)
+  else if c = ',' then ([.comma], .start)
+  else if c = '"' then ([], .str [])
+  else if c = '+' || c = '-' then ([.sign], .start)
+  else if isIdentStart c then ([], .ident [c])
+  else if isDigit c then ([], .num [c])
+  else if isWs c then ([], .start)
+  else ([.invalid], .start)
+
+def lexStep (P : Prims) : LS → Char → Out (List Tok × LS)
+  | .start, c => .ok (startStep c)
+  | .pct, c =>
+    if c = '{' then .ok ([.lrule], .start)
+    else .ok (.invalid :: (startStep c).1, (startStep c).2)
+  | .dot, c =>
+    if isDigit c then .ok ([], .num [c, '.'])
+    else .ok (.dot :: (startStep c).1, (startStep c).2)
+  | .ident acc, c =>
+    if isIdentCont c then .ok ([], .ident (c :: acc))
+    else .ok (identTok acc.reverse :: (startStep c).1, (startStep c).2)
+  | .num acc, c =>
+    if isDigit c || isFloatSym c then .ok ([], .num (c :: acc))
+    else match finishNum P acc with
+      | .ok t => .ok (t :: (startStep c).1, (startStep c).2)
+      | .err e => .err e
+      | .panic => .panic
+      | .oom => .oom
+      | .fuel => .fuel
+  | .str acc, c =>
+    if c = '\\' then .ok ([], .strEsc (c :: acc))
+    else if c = '"' then
+      match unesc acc.reverse with
+      | some t => .ok ([.str t], .start)
+      | none => .err .syntax
+    else .ok ([], .str (c :: acc))
+  | .strEsc acc, c => .ok ([], .str (c :: acc))
+
+def lexEnd (P : Prims) : LS → Out (List Tok)
+  | .start => .ok []
+  | .pct => .ok [.invalid]
+  | .dot => .ok [.dot]
+  | .ident acc => .ok [identTok acc.reverse]
+  | .num acc =>
+    match finishNum P acc with
+    | .ok t => .ok [t]
+    | .err e => .err e
+    | .panic => .panic
+    | .oom => .oom
+    | .fuel => .fuel
+  | .str _ | .strEsc _ => .err .syntax
+
+/-- the lexer; every lexer error is the class `syntax`. -/
+def lexFrom (P : Prims) : LS → Str → Out (List Tok)
+  | st, [] => lexEnd P st
+  | st, c :: cs =>
+    match lexStep P st c with
+    | .ok (ts, st') =>
+      (match lexFrom P st' cs with
+       | .ok rest => .ok (ts ++ rest)
+       | .err e => .err e
+       | .panic => .panic
+       | .oom => .oom
+       | .fuel => .fuel)
+    | .err e => .err e
+    | .panic => .panic
+    | .oom => .oom
+    | .fuel => .fuel
+
+def lex (P : Prims) (s : Str) : Out (List Tok) := lexFrom P .start s
 
 /-- scalar values as the grok code sees them: byte strings are always valid UTF-8 text here
     (literals of the placeholder syntax, matched substrings of a `&str`, `String` results). -/
@@ -264,7 +307,7 @@ def SV.toValue : SV → Value
     the modelled filters). -/
 inductive Arg where
   | lit (v : SV)
-  | fn (name : Str)
+  | fn
   deriving DecidableEq
 
 structure Fn where
@@ -294,40 +337,75 @@ def qualTail : List Tok → Out (List Str × List Tok)
   | .dot :: _ => .err .syntax
   | r => .ok ([], r)
 
-mutual
-  /-- `FunctionOrRef` -/
-  def parseFnF : Nat → List Tok → Out (Fn × List Tok)
-    | 0, _ => .fuel
-    | n + 1, .ident s :: r => do
-      let (l, r1) ← qualTail r
-      let name := joinDot (s :: l)
-      match r1 with
-      | .lpar :: r2 => do
-        let (args, r3) ← parseArgsF n r2
-        pure (⟨name, some args⟩, r3)
-      | _ => pure (⟨name, none⟩, r1)
-    | _ + 1, _ => .err .syntax
-  /-- `CommaList<Arg> ")"` : `(Arg ",")* Arg?` -/
-  def parseArgsF : Nat → List Tok → Out (List Arg × List Tok)
-    | 0, _ => .fuel
-    | _ + 1, .rpar :: r => .ok ([], r)
-    | n + 1, toks => do
-      let (a, r) ← (match toks with
-        | .int i :: r => (.ok (Arg.lit (.int i), r) : Out (Arg × List Tok))
-        | .float b :: r => .ok (.lit (.float b), r)
-        | .str s :: r => .ok (.lit (.str s), r)
-        | .tru :: r => .ok (.lit (.bool true), r)
-        | .fals :: r => .ok (.lit (.bool false), r)
-        | .null :: r => .ok (.lit .null, r)
-        | .ident s :: r => do
-          let (f, r') ← parseFnF n (.ident s :: r)
-          pure (.fn f.name, r')
-        | _ => .err .syntax)
-      match r with
-      | .comma :: r' => do let (l, r'') ← parseArgsF n r'; pure (a :: l, r'')
-      | .rpar :: r' => pure ([a], r')
+/-- states of the argument-list reader (all nesting levels obey the same grammar, so a depth
+    counter replaces the parser stack). -/
+inductive AS where
+  | argOrClose     -- after `(` or `,`
+  | afterLit       -- after a literal or a closed nested call
+  | afterName      -- after an identifier of a (qualified) function name
+  | afterDot       -- after `.` inside a qualified name
+  deriving DecidableEq, Repr
+
+def litOfTok : Tok → Option SV
+  | .int i => some (.int i)
+  | .float b => some (.float b)
+  | .str s => some (.str s)
+  | .tru => some (.bool true)
+  | .fals => some (.bool false)
+  | .null => some .null
+  | _ => none
+
+/-- `CommaList<Arg> ")"` with `Arg = Literal | FunctionOrRef`, `CommaList = (Arg ",")* Arg?`.
+    `depth` counts the open parentheses (≥ 1); only the arguments of the outermost list are kept
+    (most recent first in `acc`), nested calls are checked for syntax and recorded as `Arg.fn`. -/
+def argsGo : Nat → AS → List Arg → List Tok → Out (List Arg × List Tok)
+  | _, _, _, [] => .err .syntax
+  | depth, st, acc, t :: r =>
+    let close : Out (List Arg × List Tok) :=
+      if depth ≤ 1 then .ok (acc.reverse, r) else argsGo (depth - 1) .afterLit acc r
+    match st with
+    | .argOrClose =>
+      if t = .rpar then close
+      else match litOfTok t with
+        | some v => argsGo depth .afterLit (if depth ≤ 1 then .lit v :: acc else acc) r
+        | none =>
+          match t with
+          | .ident _ => argsGo depth .afterName (if depth ≤ 1 then .fn :: acc else acc) r
+          | _ => .err .syntax
+    | .afterLit =>
+      if t = .comma then argsGo depth .argOrClose acc r
+      else if t = .rpar then close
+      else .err .syntax
+    | .afterName =>
+      if t = .dot then argsGo depth .afterDot acc r
+      else if t = .lpar then argsGo (depth + 1) .argOrClose acc r
+      else if t = .comma then argsGo depth .argOrClose acc r
+      else if t = .rpar then close
+      else .err .syntax
+    | .afterDot =>
+      match t with
+      | .ident _ => argsGo depth .afterName acc r
       | _ => .err .syntax
-end
+
+/-- `FunctionOrRef` -/
+def parseFn : List Tok → Out (Fn × List Tok)
+  | .ident s :: r =>
+    match qualTail r with
+    | .ok (l, r1) =>
+      (match r1 with
+       | .lpar :: r2 =>
+         (match argsGo 1 .argOrClose [] r2 with
+          | .ok (args, r3) => .ok (⟨joinDot (s :: l), some args⟩, r3)
+          | .err e => .err e
+          | .panic => .panic
+          | .oom => .oom
+          | .fuel => .fuel)
+       | _ => .ok (⟨joinDot (s :: l), none⟩, r1))
+    | .err e => .err e
+    | .panic => .panic
+    | .oom => .oom
+    | .fuel => .fuel
+  | _ => .err .syntax
 
 /-- `Lookup`: one or more `"."? Field | "[" String "]"`; returns the segments read (possibly none). -/
 def lookupTail : List Tok → Out (List Str × List Tok)
@@ -344,12 +422,12 @@ def lookupTail : List Tok → Out (List Str × List Tok)
 def parsePat (toks : List Tok) : Out Pat :=
   match toks with
   | .lrule :: r => do
-    let (f, r1) ← parseFnF (r.length + 1) r
+    let (f, r1) ← parseFn r
     match r1 with
     | [.rrule] => pure ⟨f, none⟩
     | [.colon, .rrule] => pure ⟨f, none⟩
     | .colon :: .colon :: r2 => do
-      let (g, r3) ← parseFnF (r2.length + 1) r2
+      let (g, r3) ← parseFn r2
       if r3 = [.rrule] then pure ⟨f, some ⟨[], some g⟩⟩ else .err .syntax
     | .colon :: r2 => do
       let (path, r3) ← lookupTail r2
@@ -357,7 +435,7 @@ def parsePat (toks : List Tok) : Out Pat :=
       else match r3 with
         | [.rrule] => pure ⟨f, some ⟨path, none⟩⟩
         | .colon :: r4 => do
-          let (g, r5) ← parseFnF (r4.length + 1) r4
+          let (g, r5) ← parseFn r4
           if r5 = [.rrule] then pure ⟨f, some ⟨path, some g⟩⟩ else .err .syntax
         | _ => .err .syntax
     | _ => .err .syntax
@@ -382,28 +460,28 @@ inductive Filter where
 /-- `GrokFilter::try_from(&Function)`. `nullIf()` with an empty argument list indexes `args[0]`
     and panics. `array`/`keyvalue`/`date` are outside the model. -/
 def filterOf (f : Fn) : Out Filter :=
-  let n := String.ofList f.name
-  if n = "scale" then
+  let n := f.name
+  if n = cs!"scale" then
     match f.args with
     | some (.lit (.int i) :: _) => .ok (.scale (F64.ofInt i))
     | some (.lit (.float b) :: _) => .ok (.scale b)
     | _ => .err .invalidArgs
-  else if n = "integer" then .ok .integer
-  else if n = "integerExt" then .ok .integerExt
-  else if n = "number" then .ok .number
-  else if n = "numberExt" then .ok .numberExt
-  else if n = "lowercase" then .ok .lowercase
-  else if n = "uppercase" then .ok .uppercase
-  else if n = "json" || n = "rubyhash" || n = "querystring" || n = "decodeuricomponent" || n = "xml" then
+  else if n = cs!"integer" then .ok .integer
+  else if n = cs!"integerExt" then .ok .integerExt
+  else if n = cs!"number" then .ok .number
+  else if n = cs!"numberExt" then .ok .numberExt
+  else if n = cs!"lowercase" then .ok .lowercase
+  else if n = cs!"uppercase" then .ok .uppercase
+  else if n = cs!"json" || n = cs!"rubyhash" || n = cs!"querystring" || n = cs!"decodeuricomponent" || n = cs!"xml" then
     .ok (.other f.name)
-  else if n = "boolean" then .ok .boolean
-  else if n = "nullIf" then
+  else if n = cs!"boolean" then .ok .boolean
+  else if n = cs!"nullIf" then
     match f.args with
     | none => .err .invalidArgs
     | some [] => .panic
     | some (.lit (.str b) :: _) => .ok (.nullIf b)
     | some _ => .err .invalidArgs
-  else if n = "array" || n = "keyvalue" then .oom
+  else if n = cs!"array" || n = cs!"keyvalue" then .oom
   else .err .unknownFilter
 
 /-! ## 4. Rule → regular-expression source and fields (`parse_grok_rule`, `resolve_grok_pattern`) -/
@@ -437,10 +515,10 @@ def prependFilter : List (Nat × Field) → Nat → Filter → List (Nat × Fiel
   | (m, g) :: rest, n, f =>
     if m = n then (m, { g with filters := f :: g.filters }) :: rest else (m, g) :: prependFilter rest n f
 
-def natDigits (n : Nat) : Str := (toString n).toList
+def natDigits (n : Nat) : Str := Nat.toDigits 10 n
 
 /-- `format!("grok{}", n)` -/
-def grokName (n : Nat) : Str := "grok".toList ++ natDigits n
+def grokName (n : Nat) : Str := cs!"grok" ++ natDigits n
 
 def lookupAlias : List (Str × Str) → Str → Option Str
   | [], _ => none
@@ -448,21 +526,21 @@ def lookupAlias : List (Str × Str) → Str → Option Str
 
 /-- `resolves_match_function` -/
 def resolveMatchFn (grokAlias : Option Nat) (p : Pat) (c : Ctx) : Out Ctx :=
-  let n := String.ofList p.fn.name
-  let withFilter (flt : Filter) (s : String) : Out Ctx :=
+  let n := p.fn.name
+  let withFilter (flt : Filter) (s : Str) : Out Ctx :=
     let c1 := match grokAlias with
       | some g => { c with fields := prependFilter c.fields g flt }
       | none => c
-    .ok (c1.append s.toList)
-  if n = "regex" then
+    .ok (c1.append s)
+  if n = cs!"regex" then
     match p.fn.args with
     | some (.lit (.str b) :: _) => .ok (c.append b)
     | _ => .err .invalidArgs
-  else if n = "integer" then withFilter .integer "integerStr"
-  else if n = "integerExt" then withFilter .integerExt "integerExtStr"
-  else if n = "number" then withFilter .number "numberStr"
-  else if n = "numberExt" then withFilter .numberExt "numberExtStr"
-  else if n = "date" then
+  else if n = cs!"integer" then withFilter .integer cs!"integerStr"
+  else if n = cs!"integerExt" then withFilter .integerExt cs!"integerExtStr"
+  else if n = cs!"number" then withFilter .number cs!"numberStr"
+  else if n = cs!"numberExt" then withFilter .numberExt cs!"numberExtStr"
+  else if n = cs!"date" then
     -- the date matcher itself (time_format_to_regex, strptime conversion) is outside the model
     match p.fn.args with
     | some [.lit (.str _)] => .oom
@@ -492,23 +570,23 @@ def resolvePat (aliases : List (Str × Str))
   | some def_ =>
     match grokAlias with
     | some g => do
-      let c2 ← parseAlias def_ (c1.append ("(?<".toList ++ grokName g ++ ">".toList))
-      pure (c2.append ")".toList)
+      let c2 ← parseAlias def_ (c1.append (cs!"(?<" ++ grokName g ++ cs!">"))
+      pure (c2.append cs!")")
     | none => parseAlias def_ c1
   | none =>
-    let n := String.ofList name
-    if n = "regex" || n = "date" || n = "boolean" then do
+    let n := name
+    if n = cs!"regex" || n = cs!"date" || n = cs!"boolean" then do
       let c2 := match grokAlias with
-        | some g => c1.append ("(?<".toList ++ grokName g ++ ">".toList)
-        | none => c1.append "(?:".toList
+        | some g => c1.append (cs!"(?<" ++ grokName g ++ cs!">")
+        | none => c1.append cs!"(?:"
       let c3 ← resolveMatchFn grokAlias p c2
-      pure (c3.append ")".toList)
+      pure (c3.append cs!")")
     else do
-      let c3 ← resolveMatchFn grokAlias p (c1.append "%{".toList)
+      let c3 ← resolveMatchFn grokAlias p (c1.append cs!"%{")
       let c4 := match grokAlias with
         | some g => c3.append (':' :: grokName g)
         | none => c3
-      pure (c4.append "}".toList)
+      pure (c4.append cs!"}")
 
 /-- the loop of `parse_grok_rule` over the pieces of a rule. -/
 def resolvePieces (P : Prims) (aliases : List (Str × Str))
@@ -539,8 +617,8 @@ def replaceAll (frm to s : Str) : Str := replaceAllF frm to (s.length + 1) s
 
 /-- the pattern handed to `Grok::compile` by `parse_pattern`: `(?m)\A` … `\z`. -/
 def wrap (regex : Str) : Str :=
-  "(?m)\\A".toList ++ replaceAll "(?-s)".toList "(?-m)".toList (replaceAll "(?s)".toList "(?m)".toList regex)
-    ++ "\\z".toList
+  cs!"(?m)\\A" ++ replaceAll cs!"(?-s)" cs!"(?-m)" (replaceAll cs!"(?s)" cs!"(?m)" regex)
+    ++ cs!"\\z"
 
 /-- `parse_grok_rule(pattern, &mut GrokRuleParseContext::new(aliases))`: regex source and fields. -/
 def ruleSource (P : Prims) (aliases : List (Str × Str)) (rule : Str) :
@@ -625,13 +703,13 @@ def expandOcc (lib : List (Str × Str)) (pat : Str) (al : Option Str) (name : St
     match lookupAlias lib pat with
     | none => .err .undef
     | some def_ =>
-      let needle := "%{".toList ++ name ++ "}".toList
+      let needle := cs!"%{" ++ name ++ cs!"}"
       let e' : Expansion := match al with
         | none =>
-          { e with regex := replaceFirst needle ("(?:".toList ++ def_ ++ ")".toList) e.regex, index := e.index + 1 }
+          { e with regex := replaceFirst needle (cs!"(?:" ++ def_ ++ cs!")") e.regex, index := e.index + 1 }
         | some a =>
-          let gname := "name".toList ++ natDigits e.index
-          { regex := replaceFirst needle ("(?<".toList ++ gname ++ ">".toList ++ def_ ++ ")".toList) e.regex,
+          let gname := cs!"name" ++ natDigits e.index
+          { regex := replaceFirst needle (cs!"(?<" ++ gname ++ cs!">" ++ def_ ++ cs!")") e.regex,
             alias := setAssoc e.alias a gname, index := e.index + 1 }
       expandOcc lib pat al name k e'
 
@@ -646,7 +724,7 @@ def expandF (lib : List (Str × Str)) : Nat → Expansion → Out Expansion
       let name := match al with
         | none => pat
         | some a => pat ++ ':' :: a
-      let needle := "%{".toList ++ name ++ "}".toList
+      let needle := cs!"%{" ++ name ++ cs!"}"
       match expandOcc lib pat al name (countOccF needle (e.regex.length + 1) e.regex) e with
       | .ok e' => expandF lib n e'
       | .err x => .err x
@@ -778,41 +856,41 @@ def applyFilter (P : Prims) (v : SV) (f : Filter) : FRes :=
   | .integerExt =>
     (match v with
      | .str s => (match P.parseF64 s with
-        | .ok (some x) => .val (.int (f64ToI64 x))
-        | .ok none => .failed
-        | _ => .oom)
+        | some (some x) => .val (.int (f64ToI64 x))
+        | some none => .failed
+        | none => .oom)
      | _ => .failed)
   | .number | .numberExt =>
     (match v with
      | .str s => (match P.parseF64 s with
-        | .ok (some x) => .val (floatOrInt (f64OrZero x))
-        | .ok none => .failed
-        | _ => .oom)
+        | some (some x) => .val (floatOrInt (f64OrZero x))
+        | some none => .failed
+        | none => .oom)
      | _ => .failed)
   | .scale k =>
     (match v with
      | .int i => scaleBy k (some (F64.ofInt i))
      | .float x => scaleBy k (some x)
      | .str s => (match P.parseF64 s with
-        | .ok (some x) => scaleBy k (if F64.isNaN x then none else some x)
-        | .ok none => .failed
-        | _ => .oom)
+        | some (some x) => scaleBy k (if F64.isNaN x then none else some x)
+        | some none => .failed
+        | none => .oom)
      | _ => .failed)
   | .lowercase =>
     (match v with
      | .str s => (match P.lower s with
-        | .ok t => .val (.str t)
-        | _ => .oom)
+        | some t => .val (.str t)
+        | none => .oom)
      | _ => .failed)
   | .uppercase =>
     (match v with
      | .str s => (match P.upper s with
-        | .ok t => .val (.str t)
-        | _ => .oom)
+        | some t => .val (.str t)
+        | none => .oom)
      | _ => .failed)
   | .boolean =>
     (match v with
-     | .str s => .val (.bool (s.map Char.toLower = "true".toList))   -- eq_ignore_ascii_case
+     | .str s => .val (.bool (s.map Char.toLower = cs!"true"))   -- eq_ignore_ascii_case
      | _ => .failed)
   | .nullIf t =>
     (match v with
